@@ -44,12 +44,15 @@ def configs(ctx):
         # 4 schedulers x {1, 4} threads; startup parameters 1 / default alternate
         for i, s in enumerate(SCHEDS_QUICK):
             out.append({"sched": s, "cores": 4, "conc": 64, "iter": (1 if i % 2 else None), "chunk": (None if i % 2 else 1)})
-            out.append({"sched": s, "cores": 1, "conc": (1 if i == 0 else 64), "iter": (None if i % 2 else 1),
-                        "chunk": (1 if i % 2 else None)})
+            # (the ll module documents that it cannot wait actively with a single thread: 2 threads there)
+            out.append({"sched": s, "cores": (2 if s == "ll" else 1), "conc": (1 if i == 0 else 64),
+                        "iter": (None if i % 2 else 1), "chunk": (1 if i % 2 else None)})
     else:
         k = 0
         for s in SCHEDS_ALL:
             for cores in (1, 2, 4, 16):
+                if cores == 1 and s in ("ll", "llp"):
+                    continue        # documented by the module: no active wait with a single thread (live-lock risk)
                 k += 1
                 out.append({"sched": s, "cores": cores, "conc": (1 if k % 5 == 0 else 32), "noise": (k if k % 3 == 0 else 0),
                             "iter": (1, None, 2)[k % 3], "chunk": (None, 1, 3)[k % 3]})
